@@ -1131,15 +1131,15 @@ static int json_object_double_to_json_string_format(struct json_object *jso, str
 		{
 			/* last useful digit, always keep 1 zero */
 			p++;
-			for (q = p; *q; q++)
+			for (q = p; *q && *q != 'e' && *q != 'E'; q++)
 			{
 				if (*q != '0')
 					p = q;
 			}
-			/* drop trailing zeroes */
-			if (*p != 0)
-				*(++p) = 0;
-			size = p - buf;
+			/* drop trailing zeroes of the fraction, keep an exponent that follows it */
+			if (p < q)
+				memmove(p + 1, q, strlen(q) + 1);
+			size = (int)strlen(buf);
 		}
 	}
 	// although unlikely, snprintf can fail
